@@ -15,7 +15,7 @@ EXPLANATION = ('create_interface_config merge for none/each/all/pairs of the 8 s
                'read only by create_interface_config; exhaustive concrete enumeration (back end E) of value strings with '
                'numeric prefixes and of the TOML calculator section.')
 EXTRA = ['scan_setting_reads', 'enumerate_value_strings', 'toml_calculator_section', 'bounded_step_bound',
-         'bounded_step_bound_low_speed', 'rt_integrate']
+         'bounded_step_bound_low_speed', 'bounded_global_setter_history', 'rt_integrate']
 NOT_DECIDED = ['"no integration step advances the projectile through the air by more than the configured maximum step" is '
                'decided only as: time step x max(1, pre-step air speed) = half the configured maximum (step clause of '
                '_integrate); the growth of the air speed within the step (<= |g| dt) is not machine-checked, and fails '
@@ -202,3 +202,38 @@ def bounded_step_bound_low_speed(tier, seed):
     return result('bounded:step-bound-low-speed', [mk('no-step-longer-than-the-configured-maximum-near-zero-speed', ok,
                   'vertical 100 fps shot with cMinimumVelocity = 0 (apex reached at ~0 fps), default 0.5 ft maximum step', 1, t0,
                   None if ok else f'a step of {mx:.3f} ft near the apex')], t0, props=('C18',))
+
+
+def bounded_global_setter_history(tier, seed):
+    """the global default-step setter governs calculators created afterwards (their configuration AND the steps they
+    take) and leaves calculators created before alone; explicit per-calculator steps win"""
+    from pyvc.bounded import pkg, mk
+    from pyvc.scan import result
+    P = pkg()
+    t0 = time.time()
+    bad = None
+    shot = P.Shot(P.Weapon(P.Unit.Inch(2), 0), P.Ammo(P.DragModel(0.3, P.TableG7), P.Unit.FPS(2600)))
+    try:
+        before = P.Calculator()
+        for v in (0.1, 2.0):
+            P.set_global_max_calc_step_size(P.Unit.Foot(v))
+            after, own = P.Calculator(), P.Calculator(_config={'max_calc_step_size_feet': 0.3})
+            mx_a, n = _max_air_step(P, after, shot)
+            mx_b, _ = _max_air_step(P, before, shot)
+            mx_o, _ = _max_air_step(P, own, shot)
+            if abs(after._calc._config.max_calc_step_size_feet - v) > 1e-12 or not (0.45 * v < mx_a <= v * (1 + 1e-9)):
+                bad = f'after set({v} ft): a new calculator is configured with {after._calc._config.max_calc_step_size_feet} ft and steps {mx_a} ft'
+            if not (0.2 < mx_b <= 0.5 * (1 + 1e-9)):
+                bad = f'after set({v} ft): a calculator created before steps {mx_b} ft (its own maximum is 0.5 ft)'
+            if not (0.12 < mx_o <= 0.3 * (1 + 1e-9)):
+                bad = f'after set({v} ft): a calculator with its own 0.3 ft maximum steps {mx_o} ft'
+        try:
+            P.set_global_max_calc_step_size(0)
+            bad = 'set_global_max_calc_step_size(0) was accepted'
+        except ValueError:
+            pass
+    finally:
+        P.reset_globals()
+    return result('bounded:global-setter-history', [mk('global-default-step-governs-later-calculators-only', bad is None,
+                  'set_global_max_calc_step_size(0.1 ft / 2 ft): configuration and measured steps of calculators created after, '
+                  'before, and with their own step; non-positive value rejected', 6, t0, bad)], t0, props=('C18',))
